@@ -108,7 +108,8 @@ def to_obs(pid, grouped, audit, side_envs, rule_of):
                 stats["proven"] += 1
                 obs.append(K.Ob(k, True, "proven on %d visits" % o["visits"], rule, site))
                 continue
-            ents = [e for e in audit.get(norm_key(k), []) if pid in e.get("props", [pid])]
+            # an entry may be restricted to the groups (configurations) whose name contains e["only"]
+            ents = [e for e in audit.get(norm_key(k), []) if pid in e.get("props", [pid]) and (not e.get("only") or e["only"] in g)]
             if ents:
                 e = ents[0]
                 ok = True
